@@ -61,6 +61,7 @@ type c10Case struct {
 	FailIn  string  `json:"failin"`
 	FailAt  int     `json:"failat"` // the FailAt-th call of the FailIn callback throws (1-based)
 	Bad     string  `json:"bad"`    // key-none key-two less-none less-two less-nonbool
+	Late    int     `json:"late"`   // the throwing call first outputs: 0 nothing, 1 its proper single result, 2 two values
 }
 
 // ---- the independent comparator ---------------------------------------------------
@@ -330,11 +331,14 @@ func c10Setup() {
 		"c10-key": func(fm *eval.Frame, v any) error {
 			s := c10Cur
 			s.keyCalls++
+			out := fm.ValueOutput()
 			if s.c.FailIn == "key" && s.keyCalls == s.c.FailAt {
 				s.threw = true
+				for i := 0; i < s.c.Late; i++ {
+					out.Put(v)
+				}
 				return c10Failure{"&key"}
 			}
-			out := fm.ValueOutput()
 			switch s.c.Bad {
 			case "key-none":
 				return nil
@@ -353,12 +357,15 @@ func c10Setup() {
 		"c10-less": func(fm *eval.Frame, a, b any) error {
 			s := c10Cur
 			s.lessCalls++
-			if s.c.FailIn == "less" && s.lessCalls == s.c.FailAt {
-				s.threw = true
-				return c10Failure{"&less-than"}
-			}
 			out := fm.ValueOutput()
 			res := c10GoLess(s.c.Cmp, a, b, s.rank) < 0
+			if s.c.FailIn == "less" && s.lessCalls == s.c.FailAt {
+				s.threw = true
+				for i := 0; i < s.c.Late; i++ {
+					out.Put(res)
+				}
+				return c10Failure{"&less-than"}
+			}
 			switch s.c.Bad {
 			case "less-none":
 				return nil
@@ -883,6 +890,10 @@ func c10Gen(t *rapid.T, failing bool) c10Case {
 				c.FailAt = rapid.IntRange(1, n-1).Draw(t, "failat1")
 			}
 		}
+		if c.FailIn != "" {
+			// a callback that throws after it has already output its result
+			c.Late = rapid.SampledFrom([]int{0, 0, 1, 1, 2}).Draw(t, "late")
+		}
 	}
 	return c
 }
@@ -908,6 +919,9 @@ func c10ClassOf(c c10Case) (string, bool) {
 		mode = "both"
 	case c.FailIn != "":
 		mode = "throwing-" + c.FailIn
+		if c.Late > 0 {
+			mode += "-after-output"
+		}
 	case c.Bad != "":
 		mode = "bad-" + c.Bad
 	case c.Cmp != "":
@@ -952,7 +966,7 @@ func init() {
 	})
 	vs.Register(vs.Prop[c10Case]{
 		Name: "C10/failure",
-		Rule: "the same sequences and options with one failure injected: the &key or &less-than Go callback throws at a chosen call (key: call 1..n+1; less-than: call 1..3n+2, half of them within the n-1 calls every sorting procedure needs), outputs no value / two values / a non-boolean, or &total is combined with &less-than; order must throw the callback's exception and output nothing, unless the failing call is never reached, in which case the result must be the stable sorted permutation; non-trivial = at least 2 values",
+		Rule: "the same sequences and options with one failure injected: the &key or &less-than Go callback throws at a chosen call, before or after it has output its result (key: call 1..n+1; less-than: call 1..3n+2, half of them within the n-1 calls every sorting procedure needs), outputs no value / two values / a non-boolean, or &total is combined with &less-than; order must throw the callback's exception and output nothing, unless the failing call is never reached, in which case the result must be the stable sorted permutation; non-trivial = at least 2 values",
 		Gen:   func(t *rapid.T) c10Case { return c10Gen(t, true) },
 		Check: c10Check,
 		Class: c10ClassOf,
